@@ -500,7 +500,7 @@ def run(ctx, only_cases=None):
     # (cases that push more than 150 KB are checked by the Go-side predicate only: the extracted list functions are not tail recursive)
     longs = [o["forgot_parked"] for c, o in zip(cases, outs) if c["mode"] == "stall" and c.get("long") and stall_deterministic(c) and o.get("parked")]
     bounded = bool(longs) and all(longs)       # does Close return while the stats call is parked (cleanup with a bounded wait)?
-    idx = [i for i, c in enumerate(cases) if (c["mode"] in ("copy", "bridge", "life", "reattach") or (stall_deterministic(c) and outs[i].get("parked"))) and not outs[i].get("stuck")
+    idx = [i for i, c in enumerate(cases) if not outs[i].get("shutdown_ended") and (c["mode"] in ("copy", "bridge", "life", "reattach") or (stall_deterministic(c) and outs[i].get("parked"))) and not outs[i].get("stuck")
            and len(readable(c.get("r0", []))) + len(readable(c.get("r1", []))) <= 150000]
     terms = [case_value(cases[i], outs[i], sliced, bounded) for i in idx]
     mism = []
